@@ -9,7 +9,9 @@ pub mod field;
 pub mod consts;
 pub mod edwards;
 pub mod helpers;
+pub mod montgomery;
 pub mod public_consts;
+pub mod ristretto;
 pub mod scalar;
 pub mod scalarmul;
 #[cfg(curve25519_dalek_verif)]
@@ -55,6 +57,12 @@ fn dispatch(req: &Req) -> Out {
     }
     if op.starts_with("sm.") {
         return scalarmul::exec(op, a);
+    }
+    if op.starts_with("rs.") {
+        return ristretto::exec(op, a);
+    }
+    if op.starts_with("mt.") || op.starts_with("x.") {
+        return montgomery::exec(op, a);
     }
     if op.starts_with("kp.") {
         return public_consts::exec(op, a);
